@@ -18,6 +18,9 @@ type AggrPlanField struct {
 	FuncExprs []*FunctionCallExpr
 	Funcs     []AggrFunction
 	Value     Column
+	// First pair of the group: the parts of an aggregate field that are not
+	// aggregate calls (sum(x) + strlen(g)) are evaluated on it
+	First KVPair
 }
 
 type AggregatePlan struct {
@@ -323,6 +326,8 @@ func (a *AggregatePlan) createAggrRow(kvp KVPair, ctx *ExecuteCtx) ([]*AggrPlanF
 				return nil, err
 			}
 			col.Value = exprResult
+		} else {
+			col.First = NewKVP(append([]byte(nil), kvp.Key...), append([]byte(nil), kvp.Value...))
 		}
 		row[i] = col
 	}
@@ -430,7 +435,11 @@ func (a *AggregatePlan) batch(ctx *ExecuteCtx) ([][]Column, error) {
 					}
 					col.FuncExprs[i].Result = val
 				}
-				row[i], err = col.Expr.Execute(NewKVP(nil, nil), ctx)
+				if ctx != nil {
+					// What is cached belongs to the last scanned pair
+					ctx.ClearFieldCache()
+				}
+				row[i], err = col.Expr.Execute(col.First, ctx)
 				if err != nil {
 					return nil, err
 				}
@@ -498,7 +507,11 @@ func (a *AggregatePlan) next(ctx *ExecuteCtx) ([]Column, error) {
 				}
 				col.FuncExprs[i].Result = val
 			}
-			row[i], err = col.Expr.Execute(NewKVP(nil, nil), ctx)
+			if ctx != nil {
+				// What is cached belongs to the last scanned pair
+				ctx.ClearFieldCache()
+			}
+			row[i], err = col.Expr.Execute(col.First, ctx)
 			if err != nil {
 				return nil, err
 			}
